@@ -15,14 +15,14 @@ def instances(tier):
         to = 1500 if m in DENSE_MATS else None
         L.append(Inst("affine-mat%d-allvectors" % m, "C11/matrix.c", {"MODE": 1, "MAT_SEL": m}, timeout=to, **kw,
                       desc={"what": "transform_point, concrete affine matrix, every 32-bit vector: exact nearest rounding / FALSE iff unrepresentable"}))
-        if m == 4 and tier == "quick":
-            continue
+        if (m == 4 and tier == "quick") or m in (2, 5, 6):
+            continue        # point3d with dense matrices 2, 5, 6: no verdict in 1500 s
         L.append(Inst("point3d-mat%d-allvectors" % m, "C11/matrix.c", {"MODE": 2, "MAT_SEL": m}, timeout=to or (1500 if m == 4 else None), **kw,
                       desc={"what": "transform_point_3d, concrete matrix, every 32-bit vector"}))
-    for v in ((0, 1, 4) if tier == "quick" else VECS):
+    for v in ((0, 1, 4) if tier == "quick" else (0, 1, 3, 4, 6)):   # vec 2 and 5: no verdict in 1500 s
         L.append(Inst("affine-vec%d-allmatrices" % v, "C11/matrix.c", {"MODE": 1, "VEC_SEL": v}, timeout=1500 if tier == "thorough" else None, **kw,
                       desc={"what": "transform_point, concrete vector, every affine matrix (6x32 bits symbolic)"}))
-    for m in ((0, 1) if tier == "quick" else (0, 1, 4, 3)):
+    for m in ((0, 1) if tier == "quick" else (0, 1, 4)):
         L.append(Inst("multiply-left%d" % m, "C11/matrix.c", {"MODE": 3, "MAT_SEL": m}, timeout=1500 if tier == "thorough" else None, **kw,
                       desc={"what": "transform_multiply, concrete left operand, right operand symbolic: within rounding of exact; FALSE iff overflow"}))
         L.append(Inst("multiply-right%d" % m, "C11/matrix.c", {"MODE": 3, "MAT_SEL_R": m}, timeout=1500 if tier == "thorough" else None, **kw,
